@@ -20,18 +20,18 @@ type vstore struct {
 	tr      *vtrace
 	now     int64
 	// loader script for the next loading Get
-	lerr  bool
-	lval  int
-	lcost int64
-	lttl  int64
+	lerr   bool
+	lval   int
+	lcost  int64
+	lttl   int64
 	lcalls int
 	// shadow state for the implementation-side monitors
-	shadow    map[int]int  // key -> latest value written (absent after Delete)
-	shadowExp map[int]int64 // key -> deadline that governs the latest value (0 = none)
-	gen       map[int]int  // key -> number of entries created for it
-	stored    int          // entries created
-	notified  int
-	notifKeys map[string]int
+	shadow        map[int]int   // key -> latest value written (absent after Delete)
+	shadowExp     map[int]int64 // key -> deadline that governs the latest value (0 = none)
+	gen           map[int]int   // key -> number of entries created for it
+	stored        int           // entries created
+	notified      int
+	notifKeys     map[string]int
 	gets, gethits uint64
 }
 
